@@ -25,12 +25,13 @@ Example tie_C07_cleanup :
   /\ map fst Src.cleanup_pops_by_branch = map branch_name [Conservative; Greedy; FreqDep; CleanAll]
   /\ forallb (fun p => forallb known_key (snd p)) Src.cleanup_pops_by_branch = true
   /\ Src.cleanup_branches =
-     [("method == 'conservative'", ["default_attrs"]);
+     [("method == 'conservative'", ["default_attrs.union({'_intermediates'})"]);
       ("method == 'greedy'", ["default_attrs.union(concatenation_attrs)"]);
       ("method == 'frequency dependent'",
        ["filter_function_attrs.union({'_control_matrix', '_control_matrix_pc', '_total_phases'})"]);
       ("else", ["filter_function_attrs.union(default_attrs, concatenation_attrs)"])]
   /\ fd_extra_attrs = ["_control_matrix"; "_control_matrix_pc"; "_total_phases"]
+  /\ cons_extra_attrs = ["_intermediates"]
   /\ Src.h_pulse_sequence_PulseSequence_cleanup = Expected.h_pulse_sequence_PulseSequence_cleanup.
 Proof. repeat split; reflexivity. Qed.
 
@@ -43,10 +44,13 @@ Definition cleared_mask (m : cleanup_method) : N :=
 Example tie_C07_cleanup_masks :
   map cleared_mask [Conservative; Greedy; FreqDep; CleanAll] = [56; 2040; 65092; 65532]%N
   /\ bits (map (fun s => match slot_kind s with KOmega | KFD => true | _ => false end) all_slots) = 65092%N
-  (* keys popped per mode (bit k of the mask = key k of all_keys): conservative drops the three eigenbasis-dependent
-     intermediates, frequency dependent the three frequency-dependent ones *)
+  (* keys popped per mode (bit k of the mask = key k of all_keys): only the frequency-dependent mode pops (the three
+     frequency-dependent intermediates) *)
   /\ map (fun m => bits (map (fun k => existsb (String.eqb (key_name k)) (cleanup_pops_of m)) all_keys))
-         [Conservative; Greedy; FreqDep; CleanAll] = [11; 0; 28; 0]%N.
+         [Conservative; Greedy; FreqDep; CleanAll] = [0; 0; 28; 0]%N
+  (* modes that replace the _intermediates dict by a new one *)
+  /\ map (fun m => existsb (fun a => match attr_target_of a with Some AInter => true | _ => false end) (cleanup_attrs m))
+         [Conservative; Greedy; FreqDep; CleanAll] = [true; true; false; true].
 Proof. repeat split; reflexivity. Qed.
 
 (* is_cached: every alias denotes a slot of the model *)
